@@ -91,6 +91,7 @@ def parseLine (c : Case) (l : String) : Case :=
   | "data" :: _ => c
   | "bss" :: _ => c
   | "fsym" :: _ => c
+  | "bsym" :: _ => c
   | "rec" :: _ => c
   | "skip" :: _ => c
   | "member" :: _ => c
